@@ -86,6 +86,10 @@ func c18Kinds() []c18Kind {
 		}, func(a, b reflect.Value) bool { return a.Bool() == b.Bool() }},
 		{"IPv4", reflect.TypeOf(net.IP{}), 4, func(tag string) (reflect.Value, []byte) {
 			b := nondetBytes(tag, 4)
+			if nondetBool(tag + ".sixteen") {
+				// the 16-byte form of the same address
+				return reflect.ValueOf(net.IPv4(b[0], b[1], b[2], b[3])), []byte{b[0], b[1], b[2], b[3]}
+			}
 			return reflect.ValueOf(net.IP(b)), []byte{b[0], b[1], b[2], b[3]}
 		}, func(a, b reflect.Value) bool {
 			x, y := a.Interface().(net.IP).To4(), b.Interface().(net.IP).To4()
